@@ -1,1 +1,2 @@
 import Dalek.Props.C17.Consts
+import Dalek.Props.C17.Group
